@@ -1096,7 +1096,7 @@ type node struct {
 func ext(path []int, op int) []int { return append(append(make([]int, 0, len(path)+1), path...), op) }
 
 func main() {
-	c = lib.New("C12", "model_checking", 100*time.Second, 25*time.Minute)
+	c = lib.New("C12", "model_checking", 140*time.Second, 25*time.Minute)
 	if sched.IsWorker() {
 		sqlconc.Phase(c, "C12", 0, 1) // shard worker of the concurrent-sessions phase: does not return
 	}
@@ -1146,7 +1146,7 @@ func main() {
 			d = 5
 		}
 		seqDeadline := c.Deadline
-		c.Deadline = c.Start.Add(fullDeadline.Sub(c.Start) * 15 / 100)
+		c.Deadline = c.Start.Add(fullDeadline.Sub(c.Start) * 30 / 100)
 		sqlconc.TwoSessions(c, "C12", d, func(class string) bool {
 			return strings.Contains(class, "unique") || strings.Contains(class, "statement-result") || strings.Contains(class, "duplicate-pk")
 		})
